@@ -19,7 +19,7 @@ LEVEL = 'proof'
 
 logging.disable(logging.CRITICAL)
 
-MODS = ['Base.Bytes', 'Model.SpecCodec', 'Model.CodecsRegistry', 'Gen.C18Registry', 'Model.CodecsXfields', 'Gen.C18XRegistry', 'Gen.C18AvrcpRegistry', 'Model.CodecsA2dp', 'Model.CodecsBase', 'Gen.C18Tables', 'Model.CodecsL2cap', 'Model.CodecsRfcomm', 'Model.CodecsSdp', 'Model.CodecsUuid', 'Model.CodecsAv']
+MODS = ['Base.Bytes', 'Model.SpecCodec', 'Model.CodecsRegistry', 'Gen.C18Registry', 'Model.CodecsXfields', 'Gen.C18XRegistry', 'Gen.C18AvrcpRegistry', 'Model.CodecsA2dp', 'Model.CodecsBase', 'Gen.C18Tables', 'Model.CodecsL2cap', 'Model.CodecsRfcomm', 'Model.CodecsSdp', 'Model.CodecsSdpState', 'Model.CodecsUuid', 'Model.CodecsAv']
 
 
 def regen(ctx):
@@ -872,6 +872,28 @@ def sec_sdp(ctx, B):
         for i in range(d):
             t = ('seq' if i % 3 else 'alt', [t]) if i % 2 else ('seq', [t, ('nil',)])
         trees.append(t)
+    # breadth: many empty (and shallow) containers at various positions, alone and mixed with real
+    # nesting up to the limit - the nesting limit is about depth, never about how many containers
+    # were met before (the parser's counter must be restored on every exit path)
+    def chain(d, leaf=('u', 1, 7)):
+        t = leaf
+        for i in range(d):
+            t = ('seq' if i % 2 else 'alt', [t])
+        return t
+    for n in (0, 1, 2, maxd - 1, maxd, maxd + 1, 40, 64):
+        for kind in ('seq', 'alt'):
+            trees.append(('seq', [(kind, []) for _ in range(n)]))
+        trees.append(('seq', [('seq', []) for _ in range(n)] + [('seq', [('u', 1, 1)])]))
+        trees.append(('alt', [('seq', [('bool', True)])] + [('alt', []) for _ in range(n)] + [('text', b'x')]))
+    for n, d in ((20, maxd - 18), (maxd - 2, 1), (maxd - 1, 1), (10, maxd - 1), (40, maxd - 1), (3, maxd)):
+        trees.append(('seq', [('alt', []) for _ in range(n)] + [chain(d - 1)]))
+        trees.append(chain(d // 2, ('seq', [('seq', []) for _ in range(n)] + [chain(d - d // 2 - 1)])))
+    for _ in range(ctx.n(12, 400)):
+        n = rng.choice([0, 1, 5, maxd - 1, maxd, maxd + 1, rng.range(0, 64)])
+        items = [(rng.choice(['seq', 'alt']), []) for _ in range(n)]
+        for _ in range(rng.choice([0, 1, 2])):
+            items.insert(rng.below(len(items) + 1), chain(rng.choice([0, 1, 2, maxd // 2, maxd - 1])))
+        trees.append((rng.choice(['seq', 'alt']), items))
     for _ in range(ctx.n(110, 4000)):
         trees.append(sdp_gen_tree(rng, rng.choice([1, 2, 2, 3, 4]), big=rng.chance(1, 6)))
     for tree in trees:
@@ -894,6 +916,9 @@ def sec_sdp(ctx, B):
                  {'codec': 'SDP DataElement', 'element': sdp_term(tree)[:200], 'octets': len(b) if ok else None} if len(ctx.samples) < 4 and tree[0] == 'seq' else None)
         ctx.count('sdp.value.' + SDP_TYPE_NAMES[tree[0]])
         ctx.count(f'sdp.value.nesting.{min(nest, maxd + 1) if nest > 4 else nest}')
+        nempty = _tree_empties(tree)
+        if nempty:
+            ctx.count('sdp.value.empty-containers.' + ('1-4' if nempty < 5 else '5-31' if nempty < 32 else '32+'))
         if ok:
             ctx.count('sdp.value.size-form.' + ('8' if len(b) <= 257 else '16' if len(b) <= 65538 else '32') if tree[0] in ('text', 'url', 'seq', 'alt') else 'sdp.value.size-form.fixed')
         B.add(f'encode_sig {sdp_term(tree)} sdp_max_nesting', expect, 'SDP DataElement value', {'element': sdp_term(tree)[:300]})
@@ -962,6 +987,17 @@ def sec_sdp(ctx, B):
                 if not f_ok or f != bytes(p):
                     ctx.disagree('canonical for the model but the uncached serialiser differs', {'data': d[:40].hex()}, True, False)
         B.add(f'presult_sig (from_bytes sdp_max_nesting {cb(d)})', SKIP, 'SDP parse', {'data': d[:40].hex()}, extra=extra)
+        # the parser that carries the nesting counter: same result, and the counter left behind
+        if ok:
+            B.add(f'sresult_sig (sfrom_bytes false sdp_max_nesting {cb(d)})',
+                  (1, sdp_sig_elem(p), parser.offset, dg(bytes(p)), int(parser.depth)),
+                  'SDP parser nesting counter after the parse', {'data': d[:40].hex()})
+
+
+def _tree_empties(t):
+    if t[0] in ('seq', 'alt'):
+        return (1 if not t[1] else 0) + sum(_tree_empties(x) for x in t[1])
+    return 0
 
 
 def _tree_depth(t):
